@@ -539,6 +539,46 @@ fn part_pools(c: &Child, thorough: bool, only_chunk: Option<&str>) -> Tally {
         .reduce(Tally::default, Tally::merge)
 }
 
+/// part "rules": the rule constructor on every ordered pair of the 1151 rule-day notations x 3 x 3 extreme / zero day times,
+/// and on every same-month pair of month-week-day notations x 5 x 5 day times x 2 offset pairs (a consistency check that
+/// reaches an `unreachable!` or overflows must still return a value)
+fn part_rules(c: &Child, only_chunk: Option<&str>) -> Tally {
+    let days = refmodel::rule::Day::all();
+    let rd: Vec<RuleDay> = days.iter().map(|d| crate::conv::rule_day(*d)).collect();
+    let n = rd.len();
+    let std = LocalTimeType::new(0, false, Some(b"AAA")).unwrap();
+    let dsts = [LocalTimeType::new(3600, true, Some(b"BBB")).unwrap(), LocalTimeType::new(-3600, true, Some(b"BBB")).unwrap()];
+    (0..n)
+        .into_par_iter()
+        .map(|i| {
+            let id = format!("rules:{}", i / 64);
+            let mut tl = Tally::default();
+            if only_chunk.map_or(false, |o| o != id) {
+                return tl;
+            }
+            c.enter(&id);
+            for j in 0..n {
+                let same_month_mwd = matches!((days[i], days[j]), (refmodel::rule::Day::M(a, _, _), refmodel::rule::Day::M(b, _, _)) if a == b);
+                let times: &[i32] = if same_month_mwd { &[-604_799, -360_000, 0, 360_000, 604_799] } else { &[-604_799, 0, 604_799] };
+                for &st in times {
+                    for &et in times {
+                        for dst in &dsts[..if same_month_mwd { 2 } else { 1 }] {
+                            tl.evals += 1;
+                            match guard(|| AlternateTime::new(std, *dst, rd[i], st, rd[j], et).map(|a| a.dst_start_time())) {
+                                Ok(Ok(_)) => tl.accepted += 1,
+                                Ok(Err(_)) => {}
+                                Err(m) => c.rec.violation("rules", json!({"kind":"rule_ctor","start":days[i].text(),"end":days[j].text(),"st":st,"et":et,"dst_off":dst.ut_offset()}), json!("no panic"), json!(m)),
+                            }
+                        }
+                    }
+                }
+            }
+            c.leave(&id);
+            tl
+        })
+        .reduce(Tally::default, Tally::merge)
+}
+
 /// part "lengths": designations of every length 0..=1100 (and around 2^16) through the three routes that build one: the
 /// local time type constructor, a TZ string (plain and quoted name), the designation table of a TZif file
 fn part_lengths(c: &Child, only_chunk: Option<&str>) -> Tally {
@@ -849,7 +889,7 @@ fn part_api(c: &Child, only_chunk: Option<&str>) -> Tally {
 
 // ------------------------------------------------------------------------------------------ child / parent
 
-const PARTS: [&str; 8] = ["strings", "edits", "mutate", "headers", "pools", "lengths", "sizes", "api"];
+const PARTS: [&str; 9] = ["strings", "edits", "mutate", "headers", "pools", "lengths", "sizes", "rules", "api"];
 /// parts run by the unoptimised build (debug profile: no inlining or tail-call elimination, every frame is real)
 const UNOPT_PARTS: [&str; 2] = ["sizes", "lengths"];
 
@@ -862,6 +902,7 @@ fn run_part(c: &Child, part: &str, thorough: bool, only_chunk: Option<&str>) -> 
         "pools" => part_pools(c, thorough, only_chunk),
         "lengths" => part_lengths(c, only_chunk),
         "sizes" => part_sizes(c, only_chunk),
+        "rules" => part_rules(c, only_chunk),
         "api" => part_api(c, only_chunk),
         _ => Tally::default(),
     }
